@@ -79,8 +79,8 @@ Proof.
 Qed.
 
 Definition ex_rest : list choice :=
-  [ CSpawn (ODrop 10); CThread 0; CSpawn (OAsyncDrop 11); CThread 1; CThread 1; CThread 1;
-    CSpawn (ODrop 9); CThread 2; CSpawn (ODrop 3); CThread 3;
+  [ CSpawn (ODrop 10); CThread 7; CSpawn (OAsyncDrop 11); CThread 8; CThread 8; CThread 8;
+    CSpawn (ODrop 9); CThread 9; CSpawn (ODrop 3); CThread 10;
     CPend 3; CPend 0; CPend 0; CPend 0 ].
 
 Example ex_end_ok :
